@@ -8,7 +8,7 @@ use sched_common::*;
 pub const GATES: &[&str] = &[
     "cmd.begin", "txn.lock.begin", "txn.pinned", "txn.locked", "vm.commit.begin", "vm.commitA", "vm.committed",
     "cp.pass.begin", "cp.table", "cp.locked", "cp.pass.end", "vac.find", "vac.unlinked", "rd.open",
-    "rd.batch", "ddl.drop.applied",
+    "rd.batch", "scan.batch", "ddl.drop.applied",
 ];
 
 fn gen_case(r: &mut Rng, k: usize) -> Case {
@@ -51,6 +51,11 @@ fn gen_case(r: &mut Rng, k: usize) -> Case {
             a.push(Cmd::Read(t.into(), 2));
         }
         actors.push(a);
+    }
+    // an executor-level scan (`Database::run`): its read txn must stay pinned while the stream
+    // delivers batch after batch (one batch per row-set here), whatever commits in between
+    if r.chance(1, 2) {
+        actors.push(vec![Cmd::Select("t1".into())]);
     }
     // one writer session; there is ONE compactor task and ONE vacuum task in a real database, so
     // at most one actor issues compaction passes and at most one issues vacuum passes
